@@ -136,6 +136,10 @@ func profiles() map[string]Profile {
 	p.KeyOnlyReads = true
 	m["C19"] = p
 
+	p.Name = "C19cb" // the same read-log checks under every neutral subset of the callbacks (C17 x C19)
+	p.Cfg = func(r *rand.Rand) int { return r.Intn(256) }
+	m["C19cb"] = p
+
 	p = base
 	p.Name = "C18"
 	p.Iter, p.Set, p.Evict, p.Flush, p.Reopen, p.HeapCheck = 30, 30, 5, 5, 3, 3
